@@ -317,8 +317,10 @@ class Shape(Exception):
 def parse_value(toks, i):
     """returns (python tree, next index); tree = ('L', s, idx) | ('R', [..]) | ('C', v) | ('P', [..], other) | ('B', [..]) | (tag,)"""
     t = toks[i]
-    if t in ("D", "F", "V", "S", "O"):
+    if t in ("D", "F", "V", "S"):
         return (t,), i + 1
+    if t in ("Ob", "Oi", "Ou", "Of"):
+        return ("O", t[1]), i + 1
     if t == "L":
         return ("L", unhex(toks[i + 1]), int(toks[i + 2])), i + 3
     if t in ("R", "B"):
@@ -389,6 +391,12 @@ def parse_harness_line(line):
                 res["units"][(ns, loc)]["tree"] = g
             except Shape as e:
                 res["units"][(ns, loc)]["shape_error"] = str(e)
+        elif toks[0] == "I":
+            ns = None if toks[1] == "-" else unhex(toks[1])
+            try:
+                res.setdefault("kinds", {})[ns] = parse_kinds(toks, 2)[0]
+            except Shape as e:
+                res.setdefault("kinds_error", str(e))
         elif toks[0] == "W":
             res["write"] = toks[1] if len(toks) == 2 else toks[1] + " " + unhex(toks[2])
         elif toks[0] == "F":
@@ -397,6 +405,41 @@ def parse_harness_line(line):
 
 
 # ---------------------------------------------------------------- Coq terms (Parser/Strings.v)
+
+LIT_TY = {"s": "TString", "b": "TBool", "i": "TSigned", "u": "TUnsigned", "f": "TFloat"}
+
+
+def parse_kinds(toks, i):
+    """the `I` record: [(key, 'I' | 'T<x>' | [nested])]"""
+    if toks[i] != "G":
+        raise Shape("expected G, got %r" % toks[i])
+    n = int(toks[i + 1])
+    i += 2
+    out = []
+    for _ in range(n):
+        k = unhex(toks[i])
+        i += 1
+        if toks[i] == "G":
+            sub, i = parse_kinds(toks, i)
+            out.append((k, sub))
+        else:
+            out.append((k, toks[i]))
+            i += 1
+    return out, i
+
+
+def coq_kinds(ks):
+    out = "IKNil"
+    for k, e in reversed(ks):
+        if isinstance(e, list):
+            ce = "(IESub %s)" % coq_kinds(e)
+        elif e == "I":
+            ce = "(IEVal IInterpol)"
+        else:
+            ce = "(IEVal (ILit %s))" % LIT_TY[e[1]]
+        out = "(IKCons %s %s %s)" % (core.coq_str(k), ce, out)
+    return out
+
 
 def coq_strs(ss):
     return core.coq_list([core.coq_str(s) for s in ss])
@@ -415,7 +458,7 @@ def coq_pv(v):
     if t == "S":
         return "PSubV"
     if t == "O":
-        return "PLitOther"
+        return "(PLitOther %s)" % LIT_TY[v[1]]
     if t == "R":
         return "(PRanges %s)" % coq_pvs(v[1])
     if t == "B":
